@@ -10,5 +10,5 @@ func main() {
 	c := core.NewCtx("/repo", "quick", "X", 0)
 	defer c.Cleanup()
 	if err := c.Load(); err != nil { panic(err) }
-	refl.DumpAcc(c, os.Args[1])
+	refl.DumpViews(c, os.Args[1])
 }
